@@ -96,12 +96,46 @@ func runC14(c *core.Ctx) {
 	// hasSize: method of MemoryInstance returning bool, whose body is `return <expr involving len(m.Buffer)> ` with two params
 	var hasSize *types.Func
 	core.AllFuncDecls(wp, func(fd *ast.FuncDecl) {
-		if core.RecvName(fd) != "MemoryInstance" || fd.Type.Params.NumFields() != 2 || fd.Type.Results == nil || fd.Type.Results.NumFields() != 1 || len(fd.Body.List) != 1 {
+		if core.RecvName(fd) != "MemoryInstance" || fd.Type.Params.NumFields() != 2 || fd.Type.Results == nil || fd.Type.Results.NumFields() != 1 || len(fd.Body.List) == 0 {
 			return
 		}
-		rs, ok := fd.Body.List[0].(*ast.ReturnStmt)
+		// the body is the comparison, possibly after guards that answer false (`if m == nil { return false }`) and locals
+		// naming its two sides
+		localDef := map[types.Object]ast.Expr{}
+		for _, st := range fd.Body.List[:len(fd.Body.List)-1] {
+			switch x := st.(type) {
+			case *ast.AssignStmt:
+				if x.Tok != token.DEFINE || len(x.Lhs) != len(x.Rhs) {
+					return
+				}
+				for i, l := range x.Lhs {
+					if id, ok := l.(*ast.Ident); ok && info.Defs[id] != nil {
+						localDef[info.Defs[id]] = x.Rhs[i]
+					}
+				}
+			case *ast.IfStmt:
+				if len(x.Body.List) != 1 || x.Else != nil {
+					return
+				}
+				r, ok := x.Body.List[0].(*ast.ReturnStmt)
+				if !ok || len(r.Results) != 1 || core.ExprStr(r.Results[0]) != "false" {
+					return
+				}
+			default:
+				return
+			}
+		}
+		rs, ok := fd.Body.List[len(fd.Body.List)-1].(*ast.ReturnStmt)
 		if !ok || len(rs.Results) != 1 {
 			return
+		}
+		resolveSide := func(e ast.Expr) ast.Expr {
+			if id, ok := ast.Unparen(e).(*ast.Ident); ok {
+				if d, ok := localDef[info.Uses[id]]; ok {
+					return d
+				}
+			}
+			return e
 		}
 		be, ok := ast.Unparen(rs.Results[0]).(*ast.BinaryExpr)
 		// the comparison may be conjoined with further conditions that only restrict it (e.g. a nil-receiver test)
@@ -118,7 +152,7 @@ func runC14(c *core.Ctx) {
 			return
 		}
 		refsLen := false
-		ast.Inspect(be.Y, func(n ast.Node) bool {
+		ast.Inspect(resolveSide(be.Y), func(n ast.Node) bool {
 			if call, ok := n.(*ast.CallExpr); ok && core.IsBuiltin(info, call, "len") && isBuf(call.Args[0]) {
 				refsLen = true
 			}
@@ -127,7 +161,35 @@ func runC14(c *core.Ctx) {
 		if refsLen {
 			hasSize, _ = info.Defs[fd.Name].(*types.Func)
 			// width discipline of the check itself: both sides 64-bit
-			okW := typeBits(info.Types[be.X].Type) == 64 && typeBits(info.Types[be.Y].Type) == 64
+			var widthOf func(e ast.Expr, d int) int
+			widthOf = func(e ast.Expr, d int) int {
+				e = ast.Unparen(e)
+				w := typeBits(info.Types[e].Type)
+				if d > 3 {
+					return w
+				}
+				if id, ok := e.(*ast.Ident); ok {
+					if def, ok := localDef[info.Uses[id]]; ok {
+						if dw := widthOf(def, d+1); dw < w {
+							return dw
+						}
+					}
+				}
+				if call, ok := e.(*ast.CallExpr); ok && len(call.Args) == 1 {
+					if tv, ok := info.Types[call.Fun]; ok && tv.IsType() {
+						// a widening conversion of a local computed in fewer bits does not undo the wrap
+						if id, ok := ast.Unparen(call.Args[0]).(*ast.Ident); ok {
+							if _, isLocal := localDef[info.Uses[id]]; isLocal {
+								if dw := widthOf(id, d+1); dw < w {
+									return dw
+								}
+							}
+						}
+					}
+				}
+				return w
+			}
+			okW := widthOf(be.X, 0) == 64 && widthOf(be.Y, 0) == 64
 			c.Check(okW, "R14.1", "bounds check arithmetic in "+fd.Name.Name, be.Pos(), "offset+size compared with len(Buffer) in 64-bit arithmetic", "the bounds check adds offset and size in fewer than 64 bits: offset+size wraps for offsets near 4GiB")
 		}
 	})
@@ -985,13 +1047,25 @@ func checkReload(c *core.Ctx) {
 	// memory.grow arm re-reads unconditionally
 	if ref := mainClause(core.FindCaseClauses(fp, opGrow)); ref != nil {
 		top := false
-		for _, st := range ref.Clause.Body {
-			if es, ok := st.(*ast.ExprStmt); ok {
-				if call, ok := es.X.(*ast.CallExpr); ok && (core.Callee(info, call) == reload || core.Callee(info, call) == afterCall) {
-					top = true
+		var topLevel func(list []ast.Stmt, depth int)
+		topLevel = func(list []ast.Stmt, depth int) {
+			for _, st := range list {
+				if es, ok := st.(*ast.ExprStmt); ok {
+					if call, ok := es.X.(*ast.CallExpr); ok {
+						f := core.Callee(info, call)
+						if f == reload || f == afterCall {
+							top = true
+						} else if f != nil && f.Pkg() == fp.Types && depth < 1 {
+							// the arm hands the lowering to a method: its unconditional statements count
+							if hd := declOf(fp, f); hd != nil {
+								topLevel(hd.Body.List, depth+1)
+							}
+						}
+					}
 				}
 			}
 		}
+		topLevel(ref.Clause.Body, 0)
 		c.Check(top, "R14.5", "reload after memory.grow", ref.Clause.Pos(), "the memory.grow arm re-reads base and length unconditionally", "memory.grow is lowered without re-reading the memory base and length afterwards")
 	} else {
 		c.Undecided("R14.5", "memory.grow arm", 0, "lowering arm not found")
